@@ -76,7 +76,9 @@ VKS = ["vec", "vec-off", "nv-raise", "nv-sum",
        # accepts arrays, but its array path differs from its single-point
        # path in the 11th digit (a different reduction order, an interpolated
        # array path): not vectorised in the sense of the property
-       "nv-approx", "mix:vec/nv-approx", "mix:nv-approx/vec"]
+       "nv-approx", "mix:vec/nv-approx", "mix:nv-approx/vec",
+       # the two prior functions differ (each is probed separately)
+       "mix:vec/vec/nv-sum", "mix:vec/nv-sum/vec", "mix:nv-sum/vec/nv-raise"]
 RKS = ["scalar", "array"]
 UKS = ["default", "custom"]
 
@@ -182,8 +184,12 @@ def make_model(spec):
         def _eval(self, fn, x, rows, vk=vk):
             """Shared arithmetic: fn in ll/lp/lpu (custom)."""
             if vk.startswith("mix:"):
-                k_ll, k_pr = vk[4:].split("/")
-                vk = k_ll if fn == "ll" else k_pr
+                parts = vk[4:].split("/")
+                k_ll, k_pr = parts[0], parts[1]
+                # (third entry: the unit-hypercube prior has a kind of its
+                # own, otherwise that of the prior)
+                k_pu = parts[2] if len(parts) > 2 else k_pr
+                vk = k_ll if fn == "ll" else k_pr if fn == "lp" else k_pu
             _ret = self._ret
             self_ret = lambda out: _ret(out, vk)  # noqa: E731
             return self._eval_kind(fn, x, rows, vk, self_ret)
